@@ -19,6 +19,11 @@
 /* p is a C string of exactly n characters: NUL at n, no NUL at the arbitrary position xv_j before it */
 #define XVU_STR_IS(p, n) ((p)[n] == 0 && (XVU_IN(0, xv_j, (long)(n)) ==> (p)[xv_j] != 0))
 #define XVU_B(x) ((x) ? 1 : 0)
+/* p is a C string of fewer than 64 characters whose terminator lies inside p[0..63] (no quantifier: 64 disjuncts) */
+#define XVU_Z1(p, k) ((p)[k] == 0)
+#define XVU_Z4(p, k) (XVU_Z1(p, k) || XVU_Z1(p, (k) + 1) || XVU_Z1(p, (k) + 2) || XVU_Z1(p, (k) + 3))
+#define XVU_Z16(p, k) (XVU_Z4(p, k) || XVU_Z4(p, (k) + 4) || XVU_Z4(p, (k) + 8) || XVU_Z4(p, (k) + 12))
+#define XVU_CSTR64(p) (XVU_Z16(p, 0) || XVU_Z16(p, 16) || XVU_Z16(p, 32) || XVU_Z16(p, 48))
 
 #ifdef XVU_UTIL
 /* ================================================================================================== fcntl helpers */
@@ -237,6 +242,204 @@ __CPROVER_ensures(__CPROVER_return_value == -1 ==> (xv_errno == xvu_snd.err && x
 __CPROVER_ensures(xvu_snd.same)
 ;
 #endif /* XVU_STREAM */
+
+#ifdef XVU_XCMC
+/* ================================================================================================== common/common_ctl.c
+ * Strings are described by the ghost-length string model of env/utilctl_env.h: string 0 = the value of XCM_CTL (xvu_env),
+ * string 1 = a directory entry name, string 2 = the control directory, string 3 = a derived path. */
+#define XVU_DEFAULT_DIR_LEN (sizeof(CTL_PROTO_DEFAULT_DIR) - 1)
+/* the environment: XCM_CTL unset, or set to ANY C string of up to XVU_ENV_MAX characters (longer than every capacity in use) */
+#define XVU_ENV_MAX 5000
+#define XVU_ENV_REQ ((xvu_env_set ==> (xvu_env_len <= XVU_ENV_MAX && __CPROVER_is_fresh(xvu_env, xvu_env_len + 1) && XVU_STR_IS(xvu_env, xvu_env_len) && \
+                     xvu_str[0].base == xvu_env && xvu_str[0].len == xvu_env_len)) && (!xvu_env_set ==> xvu_str[0].base == NULL) && \
+                     xvu_str[1].base == NULL && xvu_str[2].base == NULL)
+#define XVU_ENV_USED(capacity) (xvu_env_set && xvu_env_len < (capacity))
+#define XVU_DIR_LEN(capacity) (XVU_ENV_USED(capacity) ? xvu_env_len : XVU_DEFAULT_DIR_LEN)
+
+/* ctl_get_dir: both callers pass a buffer that has room for the default directory (UNIX_PATH_MAX = 108, PATH_MAX = 4096) */
+void ctl_get_dir(char *buf, size_t capacity)
+__CPROVER_requires(capacity > XVU_DEFAULT_DIR_LEN && capacity <= XVU_CAP_MAX && __CPROVER_is_fresh(buf, capacity) && XVU_ENV_REQ)
+__CPROVER_assigns(__CPROVER_object_upto(buf, capacity), xvu_str[2])
+/* PO[C14,C08] ctl_get_dir.terminated_within_capacity: the result is the value of XCM_CTL if it fits WITH its NUL, otherwise the default; never truncated, always terminated inside the buffer */
+__CPROVER_ensures(XVU_DIR_LEN(capacity) < capacity && XVU_STR_IS(buf, XVU_DIR_LEN(capacity)))
+/* PO[C14] ctl_get_dir.value_of_env */
+__CPROVER_ensures((XVU_ENV_USED(capacity) && XVU_IN(0, xv_j, (long)xvu_env_len)) ==> buf[xv_j] == xvu_env[xv_j])
+__CPROVER_ensures((!XVU_ENV_USED(capacity) && XVU_IN(0, xv_j, (long)XVU_DEFAULT_DIR_LEN)) ==> buf[xv_j] == CTL_PROTO_DEFAULT_DIR[xv_j])
+__CPROVER_ensures(xvu_str[2].base == buf && xvu_str[2].len == XVU_DIR_LEN(capacity))
+;
+
+/* ctl_derive_path.  Precondition = what BOTH call sites establish: ctl_dir is the string ctl_get_dir left in a buffer of the
+ * SAME capacity as buf (create_ux of libxcm/ctl/ctl.c: UNIX_PATH_MAX / UNIX_PATH_MAX; xcmc_open: PATH_MAX / PATH_MAX), i.e. any
+ * C string shorter than capacity.  The function returns nothing, so the only correct outcomes are: the complete path, NUL-
+ * terminated, inside buf.  (A directory name that leaves no room for "/ctl-<pid>-<id>" is a legal value of XCM_CTL.) */
+#ifndef XVU_DERIVE_ASSUMED
+#define XVU_DERIVE_REQ(ctl_dir, buf, capacity) (capacity >= 1 && capacity <= XVU_CAP_MAX && xvu_g_len < capacity && __CPROVER_is_fresh(ctl_dir, capacity) && \
+        XVU_STR_IS(ctl_dir, xvu_g_len) && __CPROVER_is_fresh(buf, capacity) && xvu_str[2].base == ctl_dir && xvu_str[2].len == xvu_g_len)
+#else
+/* (assumed of the call in xcmc_open: the directory is string 2, whatever its length -- nothing is bound to a ghost constant) */
+#define XVU_DERIVE_REQ(ctl_dir, buf, capacity) (capacity >= 1 && capacity <= XVU_CAP_MAX && xvu_str[2].base == ctl_dir && xvu_str[2].len < capacity && \
+        __CPROVER_r_ok(ctl_dir, xvu_str[2].len + 1) && ctl_dir[xvu_str[2].len] == 0 && __CPROVER_w_ok(buf, capacity))
+#endif
+void ctl_derive_path(const char *ctl_dir, pid_t creator_pid, int64_t sock_id, char *buf, size_t capacity)
+__CPROVER_requires(XVU_DERIVE_REQ(ctl_dir, buf, capacity))
+__CPROVER_assigns(__CPROVER_object_upto(buf, capacity), xvu_fmt, xvu_str[3], xvu_dp)
+/* PO[C08,C14] ctl_derive_path.complete_path: the text was formatted once into (buf, capacity), fitted, and ends in a NUL inside buf: no truncated path is ever used (and the process is not aborted, obligation "abort reachable") */
+__CPROVER_ensures(xvu_fmt.calls == __CPROVER_old(xvu_fmt.calls) + 1 && xvu_fmt.cap == capacity && xvu_fmt.ret >= 0 && (size_t)xvu_fmt.ret < capacity && buf[xvu_fmt.ret] == 0)
+__CPROVER_ensures((size_t)xvu_fmt.ret < capacity ==> (xvu_str[3].base == buf && xvu_str[3].len == (size_t)xvu_fmt.ret && (XVU_IN(0, xv_j, (long)xvu_fmt.ret) ==> buf[xv_j] != 0)))
+#ifdef XVU_DERIVE_ASSUMED
+__CPROVER_ensures(xvu_dp.pid == creator_pid && xvu_dp.ref == sock_id && xvu_dp.calls == __CPROVER_old(xvu_dp.calls) + 1)
+#endif
+;
+
+/* ctl_parse_info: a directory entry name -> (pid, socket reference).  strtol/strtoll are libc (model: any value, any number of
+ * characters consumed inside the string).  XVU_PARSE_LEN: strlen(filename) -- a ghost constant where the contract is enforced,
+ * the length readdir's model recorded where it is assumed (xcmc_list). */
+#ifndef XVU_PARSE_ASSUMED
+#define XVU_PARSE_LEN xvu_g_len
+#define XVU_PARSE_REQ(filename) (xvu_g_len <= 255 && __CPROVER_is_fresh(filename, xvu_g_len + 1) && XVU_STR_IS(filename, xvu_g_len) && \
+                                 xvu_str[1].base == filename && xvu_str[1].len == xvu_g_len && xvu_str[0].base == NULL && xvu_str[2].base == NULL)
+#else
+#define XVU_PARSE_LEN xvu_ent_len
+#define XVU_PARSE_REQ(filename) (xvu_ent_len <= 255 && __CPROVER_r_ok(filename, xvu_ent_len + 1) && XVU_STR_IS(filename, xvu_ent_len))
+#endif
+#define XVU_IS_CTL_PREFIX(f) ((f)[0] == 'c' && (f)[1] == 't' && (f)[2] == 'l' && (f)[3] == '-')
+bool ctl_parse_info(const char *filename, pid_t *creator_pid, int64_t *sock_ref)
+__CPROVER_requires(XVU_PARSE_REQ(filename) && __CPROVER_w_ok(creator_pid, sizeof(*creator_pid)) && __CPROVER_w_ok(sock_ref, sizeof(*sock_ref)))
+__CPROVER_assigns(*creator_pid, *sock_ref, xvu_strto)
+/* PO[C14] ctl_parse_info.accepts_only_ctl_names: accepted names are "ctl-" <number> "-" <number> and nothing behind; the numbers are what libc read */
+__CPROVER_ensures(__CPROVER_return_value ==> (XVU_PARSE_LEN > 4 && XVU_IS_CTL_PREFIX(filename) && xvu_strto.l_used >= 1 && xvu_strto.ll_used >= 1 && \
+                  filename[4 + xvu_strto.l_used] == '-' && 4 + xvu_strto.l_used + 1 + xvu_strto.ll_used <= XVU_PARSE_LEN && filename[4 + xvu_strto.l_used + 1 + xvu_strto.ll_used] == 0 && \
+                  *creator_pid == (pid_t)xvu_strto.l_val && (long long)*sock_ref == xvu_strto.ll_val))
+/* PO[C14] ctl_parse_info.pid_not_wrapped: the process id reported is the number in the name, not that number modulo 2^32 */
+__CPROVER_ensures(__CPROVER_return_value ==> (xvu_strto.l_val >= -2147483647L - 1 && xvu_strto.l_val <= 2147483647L))
+/* PO[C14] ctl_parse_info.rejected_leaves_outputs */
+__CPROVER_ensures(!__CPROVER_return_value ==> (*creator_pid == __CPROVER_old(*creator_pid) && *sock_ref == __CPROVER_old(*sock_ref)))
+;
+
+/* ================================================================================================== libxcmctl/xcmc.c
+ * The session's descriptor is a (blocking) AF_UNIX SOCK_SEQPACKET socket of the ghost table of env/fd.h; the peer -- whatever
+ * process created the socket file in the control directory -- is NOT trusted: recv delivers an arbitrary record of arbitrary
+ * length (xvu_rx: the protocol fields of a full-size record, as the peer wrote them). */
+#define XVU_MSG_SIZE sizeof(struct ctl_proto_msg)
+#define XVU_SESS_OK(s) (XV_FD_OURS((s)->fd) && xv_fdt.e[(s)->fd].seqpacket && xv_open_cnt >= 1)
+#define XVU_SESS_HEAP_RANGE (xvu_sess_heap >= 0 && xvu_sess_heap < 1000000)
+#define XVU_SLOT_SAME(i) (XVU_B(xv_fdt.e[i].open) == XVU_B(__CPROVER_old(xv_fdt.e[i].open)))
+
+/* ---- xcmc_open: the path comes from ctl_get_dir + ctl_derive_path (assumed here under its contract above: complete path,
+ * shorter than PATH_MAX); socket, two timeouts, connect; failure leaves no descriptor and no session object. */
+struct xcmc_session *xcmc_open(pid_t creator_pid, int64_t sock_ref)
+__CPROVER_requires(XV_FD_GHOST_RANGE && XVU_SESS_HEAP_RANGE && xv_fk >= 0 && xv_fk < XV_NFD && XVU_ENV_REQ)
+__CPROVER_assigns(xv_errno, xv_blocked, XV_SOCKET_ASSIGNS, XV_SOCKOPT_ASSIGNS, XV_CONNECT_ASSIGNS, XV_CLOSE_ASSIGNS, xvu_sess_heap, xvu_fmt, xvu_dp, xvu_str[2], xvu_str[3], xvu_str[5])
+/* PO[C14] xcmc_open.path_of_this_socket: the path is derived once, from this pid and socket reference */
+__CPROVER_ensures(xvu_dp.calls == __CPROVER_old(xvu_dp.calls) + 1 && xvu_dp.pid == creator_pid && xvu_dp.ref == sock_ref)
+/* PO[C08] xcmc_open.owned_session: success hands out a new session object owning ONE new descriptor -- a SOCK_SEQPACKET socket, connected, both timeouts set */
+__CPROVER_ensures(__CPROVER_return_value != NULL ==> (__CPROVER_is_fresh(__CPROVER_return_value, sizeof(struct xcmc_session)) && XVU_SESS_OK(__CPROVER_return_value) && \
+                  xv_open_cnt == __CPROVER_old(xv_open_cnt) + 1 && xvu_sess_heap == __CPROVER_old(xvu_sess_heap) + 1 && xv_close_calls == __CPROVER_old(xv_close_calls) && \
+                  xv_connect_ok_calls == __CPROVER_old(xv_connect_ok_calls) + 1 && xv_connect_fd == __CPROVER_return_value->fd && \
+                  xv_sockopt_calls == __CPROVER_old(xv_sockopt_calls) + 2 && xv_sockopt_fd == __CPROVER_return_value->fd && \
+                  (xv_fk != __CPROVER_return_value->fd ==> XVU_SLOT_SAME(xv_fk))))
+/* PO[C08] xcmc_open.failure_leaves_nothing: NULL with errno set; no descriptor stays open (the table is as before), no session object is left */
+__CPROVER_ensures(__CPROVER_return_value == NULL ==> (xv_errno > 0 && xv_open_cnt == __CPROVER_old(xv_open_cnt) && xvu_sess_heap == __CPROVER_old(xvu_sess_heap) && XVU_SLOT_SAME(xv_fk) && \
+                  xv_close_calls - __CPROVER_old(xv_close_calls) <= 1))
+;
+
+/* ---- xcmc_close */
+int xcmc_close(struct xcmc_session *session)
+__CPROVER_requires(XV_FD_GHOST_RANGE && XVU_SESS_HEAP_RANGE && xv_fk >= 0 && xv_fk < XV_NFD)
+__CPROVER_requires(session == NULL || (__CPROVER_is_fresh(session, sizeof(*session)) && XVU_SESS_OK(session) && xvu_sess_heap >= 1 && session->fd == xvu_g_int))
+__CPROVER_assigns(xv_errno, XV_CLOSE_ASSIGNS, xvu_sess_heap)
+__CPROVER_frees(session)
+/* PO[C08] xcmc_close.closes_once_and_frees: the descriptor is closed exactly once, the session object freed; only that slot of the table changes */
+__CPROVER_ensures(session != NULL ==> (xv_close_calls == __CPROVER_old(xv_close_calls) + 1 && xv_close_fd == xvu_g_int && !xv_fdt.e[xvu_g_int].open && \
+                  xv_open_cnt == __CPROVER_old(xv_open_cnt) - 1 && xvu_sess_heap == __CPROVER_old(xvu_sess_heap) - 1 && __CPROVER_was_freed(session) && \
+                  (xv_fk != xvu_g_int ==> XVU_SLOT_SAME(xv_fk)) && (__CPROVER_return_value == 0 || (__CPROVER_return_value == -1 && xv_errno > 0))))
+/* PO[C08] xcmc_close.null_is_a_no_op */
+__CPROVER_ensures(session == NULL ==> (__CPROVER_return_value == 0 && xv_close_calls == __CPROVER_old(xv_close_calls) && xv_open_cnt == __CPROVER_old(xv_open_cnt) && \
+                  xvu_sess_heap == __CPROVER_old(xvu_sess_heap) && xv_errno == __CPROVER_old(xv_errno)))
+;
+
+/* ---- xcmc_attr_get */
+#define XVU_VAL_CAP_MAX 65536      /* caller capacities above this are not explored (far above the 512-byte wire field and above sizeof(struct ctl_proto_msg)) */
+#define XVU_NAME_OBJ_MAX 200       /* attribute names of 0..200 characters are explored (the wire field holds 63) */
+#define XVU_OFF_NAME offsetof(struct ctl_proto_msg, get_attr_req.attr_name)
+#define XVU_OFF_VAL (offsetof(struct ctl_proto_msg, get_attr_cfm.attr) + offsetof(struct ctl_proto_attr, any_value))
+#define XVU_SENT_ONE(s) (xv_send_calls == __CPROVER_old(xv_send_calls) + 1 && xv_send_fd == (s)->fd && xv_send_len == XVU_MSG_SIZE && xv_send_flags == MSG_NOSIGNAL)
+#define XVU_SEND_OK (xv_send_ret == (long)XVU_MSG_SIZE)
+#define XVU_RECV_ONE(s) (xv_recv_calls == __CPROVER_old(xv_recv_calls) + 1 && xv_recv_fd == (s)->fd && xv_recv_len == XVU_MSG_SIZE && xv_recv_flags == 0)
+/* the reply is a confirmation whose value the protocol can carry and the caller has room for */
+#define XVU_CFM_OK(cap) (xvu_rx.full && xvu_rx.type == ctl_proto_type_get_attr_cfm && xvu_rx.value_len <= CTL_ATTR_VALUE_MAX && xvu_rx.value_len <= (cap))
+int xcmc_attr_get(struct xcmc_session *session, const char *attr_name, enum xcm_attr_type *value_type, void *attr_value, size_t value_capacity)
+__CPROVER_requires(XV_FD_GHOST_RANGE && __CPROVER_is_fresh(session, sizeof(*session)) && XVU_SESS_OK(session))
+__CPROVER_requires(xvu_g_len <= XVU_NAME_OBJ_MAX && __CPROVER_is_fresh(attr_name, xvu_g_len + 1) && XVU_STR_IS(attr_name, xvu_g_len) && \
+                   xvu_str[1].base == attr_name && xvu_str[1].len == xvu_g_len && xvu_str[0].base == NULL && xvu_str[2].base == NULL)
+__CPROVER_requires((value_type == NULL || __CPROVER_is_fresh(value_type, sizeof(*value_type))) && value_capacity <= XVU_VAL_CAP_MAX && \
+                   __CPROVER_is_fresh(attr_value, value_capacity == 0 ? 1 : value_capacity))
+__CPROVER_assigns(xv_errno, xv_blocked, XV_SEND_ASSIGNS, XV_RECV_ASSIGNS, xvu_rx, xvu_str[5])
+__CPROVER_assigns(value_type != NULL: *value_type)
+__CPROVER_assigns(value_capacity > 0: __CPROVER_object_upto(attr_value, value_capacity))
+__CPROVER_ensures(__CPROVER_return_value >= -1)
+/* PO[C14] xcmc_attr_get.long_name_refused: a name that does not fit attr_name[64] with its NUL is refused before anything is sent */
+__CPROVER_ensures(xvu_g_len >= XCM_ATTR_NAME_MAX ==> (__CPROVER_return_value == -1 && xv_errno == EOVERFLOW && xv_send_calls == __CPROVER_old(xv_send_calls) && xv_recv_calls == __CPROVER_old(xv_recv_calls)))
+/* PO[C14] xcmc_attr_get.one_request: otherwise exactly ONE full-size message goes out on the session's descriptor: type get_attr_req, the name with its NUL, zeros behind it */
+__CPROVER_ensures(xvu_g_len < XCM_ATTR_NAME_MAX ==> (XVU_SENT_ONE(session) && \
+                  (XVU_IN(0, xv_j, 4) ==> xv_send_c == 0) && \
+                  (XVU_IN((long)XVU_OFF_NAME, xv_j, (long)(XVU_OFF_NAME + xvu_g_len)) ==> xv_send_c == (uint8_t)attr_name[xv_j - (long)XVU_OFF_NAME]) && \
+                  (XVU_IN((long)(XVU_OFF_NAME + xvu_g_len), xv_j, (long)XVU_MSG_SIZE) ==> xv_send_c == 0)))
+__CPROVER_ensures((xvu_g_len < XCM_ATTR_NAME_MAX && !XVU_SEND_OK) ==> (__CPROVER_return_value == -1 && xv_recv_calls == __CPROVER_old(xv_recv_calls)))
+/* PO[C14] xcmc_attr_get.reply_size_checked: one recv of at most one full message; anything but a full-size reply is a failure */
+__CPROVER_ensures((xvu_g_len < XCM_ATTR_NAME_MAX && XVU_SEND_OK) ==> (XVU_RECV_ONE(session) && (!xvu_rx.full ==> __CPROVER_return_value == -1)))
+/* PO[C14] xcmc_attr_get.value_len_not_trusted: a length is reported only if it is within the caller's capacity AND within the 512-byte value field of the protocol */
+__CPROVER_ensures(__CPROVER_return_value >= 0 ==> ((size_t)__CPROVER_return_value <= value_capacity && (size_t)__CPROVER_return_value <= CTL_ATTR_VALUE_MAX))
+/* PO[C14] xcmc_attr_get.confirmation: a well-formed confirmation yields its length, type and value bytes */
+__CPROVER_ensures((xvu_g_len < XCM_ATTR_NAME_MAX && XVU_SEND_OK && XVU_CFM_OK(value_capacity)) ==> ((size_t)__CPROVER_return_value == xvu_rx.value_len && \
+                  (value_type != NULL ==> (int)*value_type == xvu_rx.value_type) && \
+                  ((xv_j >= (long)XVU_OFF_VAL && (size_t)(xv_j - (long)XVU_OFF_VAL) == xv_mc && xv_mc < xvu_rx.value_len) ==> ((const uint8_t *)attr_value)[xv_mc] == xv_recv_c)))
+/* PO[C14] xcmc_attr_get.rejection_and_garbage: a rejection fails with the peer's errno; a confirmation that does not fit fails with EOVERFLOW; any other type is a protocol error */
+__CPROVER_ensures((xvu_g_len < XCM_ATTR_NAME_MAX && XVU_SEND_OK && xvu_rx.full && !XVU_CFM_OK(value_capacity)) ==> (__CPROVER_return_value == -1 && \
+                  (xvu_rx.type == ctl_proto_type_get_attr_rej ? xv_errno == xvu_rx.rej_errno : \
+                   xvu_rx.type == ctl_proto_type_get_attr_cfm ? (xv_errno == EOVERFLOW || xv_errno == EPROTO) : xv_errno == EPROTO)))
+;
+
+/* ---- xcmc_attr_get_all.  The callback (a function pointer) is the contract-carrying xvu_attr_cb: its PRECONDITION is what a
+ * callback written against xcmc.h relies on -- the name is a C string inside name[64], the value pointer is good for attr_len
+ * bytes and attr_len is at most the 512 bytes of the protocol field. */
+void xvu_attr_cb(const char *attr_name, enum xcm_attr_type type, void *attr_value, size_t attr_len, void *cb_data)
+/* PO[C14] xcmc_attr_get_all.callback_gets_a_terminated_name_and_a_bounded_value */
+__CPROVER_requires(attr_len <= CTL_ATTR_VALUE_MAX && __CPROVER_r_ok(attr_value, attr_len == 0 ? 1 : attr_len) && __CPROVER_r_ok(attr_name, XCM_ATTR_NAME_MAX) && XVU_CSTR64(attr_name))
+__CPROVER_assigns(xvu_cb)
+__CPROVER_ensures(xvu_cb.calls == __CPROVER_old(xvu_cb.calls) + 1)
+;
+#define XVU_ALL_OK (xvu_rx.full && xvu_rx.type == ctl_proto_type_get_all_attr_cfm && xvu_rx.attrs_len <= CTL_PROTO_MAX_ATTRS)
+int xcmc_attr_get_all(struct xcmc_session *session, xcmc_attr_cb cb, void *cb_data)
+__CPROVER_requires(XV_FD_GHOST_RANGE && __CPROVER_is_fresh(session, sizeof(*session)) && XVU_SESS_OK(session) && cb == xvu_attr_cb)
+__CPROVER_assigns(xv_errno, xv_blocked, XV_SEND_ASSIGNS, XV_RECV_ASSIGNS, xvu_rx, xvu_cb)
+__CPROVER_ensures(__CPROVER_return_value == 0 || __CPROVER_return_value == -1)
+/* PO[C14] xcmc_attr_get_all.one_request: one full-size message of type get_all_attr_req, all zero behind the type */
+__CPROVER_ensures(XVU_SENT_ONE(session) && (xv_j == 0 ==> xv_send_c == ctl_proto_type_get_all_attr_req) && (XVU_IN(1, xv_j, 4) ==> xv_send_c == 0) && \
+                  (XVU_IN(8, xv_j, (long)XVU_MSG_SIZE) ==> xv_send_c == 0))
+/* PO[C14] xcmc_attr_get_all.reply_checked: short replies, other types and attribute counts above the 64 entries of the message fail, without any callback */
+__CPROVER_ensures((!XVU_SEND_OK || !XVU_ALL_OK) ==> (__CPROVER_return_value == -1 && xvu_cb.calls == __CPROVER_old(xvu_cb.calls)))
+__CPROVER_ensures((XVU_SEND_OK && xvu_rx.full && !XVU_ALL_OK) ==> xv_errno == EPROTO)
+/* PO[C14] xcmc_attr_get_all.one_callback_per_attribute */
+__CPROVER_ensures((XVU_SEND_OK && XVU_ALL_OK && __CPROVER_return_value == 0) ==> xvu_cb.calls == __CPROVER_old(xvu_cb.calls) + xvu_rx.attrs_len)
+;
+
+/* ---- xcmc_list: callback xvu_list_cb (contract-carrying); ctl_parse_info assumed under its contract above */
+void xvu_list_cb(pid_t creator_pid, int64_t sock_ref, void *cb_data)
+__CPROVER_requires(1)
+__CPROVER_assigns(xvu_lcb)
+__CPROVER_ensures(xvu_lcb.calls == __CPROVER_old(xvu_lcb.calls) + 1 && xvu_lcb.pid == creator_pid && xvu_lcb.ref == sock_ref)
+;
+int xcmc_list(xcmc_list_cb cb, void *cb_data)
+__CPROVER_requires(XVU_DIR_RANGE && XVU_ENV_REQ && cb == xvu_list_cb)
+__CPROVER_assigns(xv_errno, XVU_DIR_ASSIGNS, xvu_lcb, xvu_strto, xvu_str[2])
+__CPROVER_ensures(__CPROVER_return_value == 0 || __CPROVER_return_value == -1)
+/* PO[C08] xcmc_list.dir_closed: the directory stream is closed exactly once iff it was opened; -1 iff it could not be opened */
+__CPROVER_ensures(xvu_opendir_calls == __CPROVER_old(xvu_opendir_calls) + 1 && xvu_dir_open == __CPROVER_old(xvu_dir_open) && \
+                  xvu_closedir_calls - __CPROVER_old(xvu_closedir_calls) == xvu_opendir_ok - __CPROVER_old(xvu_opendir_ok) && \
+                  (__CPROVER_return_value == 0) == (xvu_opendir_ok == __CPROVER_old(xvu_opendir_ok) + 1))
+;
+#endif /* XVU_XCMC */
 
 #include "contracts/end.h"
 #endif
